@@ -312,6 +312,10 @@ def parse_holographic_pattern(pattern_str: str) -> HolographicPattern:
                 constraints = ConstraintChain.parse(constraint_str)
             except ValueError as e:
                 raise HolographicPatternError(f"Invalid constraint: {e}", pattern_str) from e
+        else:
+            # A dangling ∧ ("[x∧]") is not a pattern; accepting it made the parser return a
+            # HolographicValue whose re-emitted text reads back as a plain list (not idempotent).
+            raise HolographicPatternError("Constraint operator without a constraint", pattern_str)
 
     # Extract target
     target = None
